@@ -18,6 +18,9 @@ CONFIGS = [
     ("c14nc", ["-UHAVE_FUNC_ATTRIBUTE_CONSTRUCTOR"], "no constructor attribute: first-call dispatch (crc32_dispatch/crc64_dispatch), mythread_once in crc*_small.c"),
     ("c14gen", ["-UHAVE_USABLE_CLMUL"], "table-driven code only (CRC32_GENERIC/CRC64_GENERIC), no run-time dispatch"),
     ("c14clmul", ["-mssse3", "-msse4.1", "-mpclmul"], "CLMUL code only (no tables, no run-time dispatch)"),
+    ("c14na", ["-UTUKLIB_FAST_UNALIGNED_ACCESS"], "default dispatch, byte-by-byte read16/32/64le/be of tuklib_integer.h (no fast unaligned access)"),
+    ("c14clmulna", ["-mssse3", "-msse4.1", "-mpclmul", "-UTUKLIB_FAST_UNALIGNED_ACCESS"], "CLMUL code only, byte-by-byte integer readers"),
+    ("c14genna", ["-UHAVE_USABLE_CLMUL", "-UTUKLIB_FAST_UNALIGNED_ACCESS"], "table-driven code only, byte-by-byte integer readers"),
 ]
 PROPS = ["XzVerif.Props.C14", "XzVerif.Props.C14Sha", "XzVerif.Props.C14Clmul"]
 
@@ -216,6 +219,12 @@ def gen_cases(ctx):
             for w in (32, 64):
                 lines.append("crc%d %d %d %s" % (w, al, init(w), vlib.hexs(data(n, 0))))
                 ctx.count("crc small x alignment sweep")
+    # tiny and short buffers that END at a page end followed by an inaccessible page (code that loads whole words near the
+    # end of the input, or behaves differently close to a page boundary)
+    for n in list(range(0, 41)) + [63, 64, 65, 127, 128, 129, 4095, 4096, 4097]:
+        for w in (32, 64):
+            lines.append("crc%dg %d %s" % (w, init(w), vlib.hexs(data(n, rng.randrange(4)))))
+            ctx.count("crc buffer at a page end + guard page")
     # every alignment 0..63 at a few lengths
     for al in range(64):
         for n in (9, 17, 40, 129) if quick else (5, 9, 15, 16, 17, 31, 40, 64, 129, 255, 1031):
@@ -295,6 +304,14 @@ def oracle(line):
     if t[0] == "crc64":
         v = crc64_py(hx(t[3]), int(t[2]))
         return "%d %d %d" % (v, v, v)
+    if t[0] == "tuk":
+        return tuk_oracle(t)
+    if t[0] == "crc32g":
+        v = zlib.crc32(hx(t[2]), int(t[1])) & 0xFFFFFFFF
+        return "%d %d %d" % (v, v, v)
+    if t[0] == "crc64g":
+        v = crc64_py(hx(t[2]), int(t[1]))
+        return "%d %d %d" % (v, v, v)
     if t[0] == "crc32s":
         return str(zlib.crc32(b"".join(hx(x) for x in t[2:]), int(t[1])) & 0xFFFFFFFF)
     if t[0] == "crc64s":
@@ -351,7 +368,103 @@ def cfg_cases(ctx):
     return lines
 
 
+def cfga_cases(ctx):
+    """batch sweep for every configuration: lengths 0..300 at rotating alignments and lengths 8..15 (the read64le path of
+    the CLMUL code) at every alignment 0..63, contents with the high bit set at every position (sign-extension slips)"""
+    rng = ctx.rng
+    lines = []
+
+    def kinds(n):
+        yield bytes([0xFF]) * n
+        yield bytes(0x80 | ((i * 13 + 5) & 0x7F) for i in range(n))
+        yield bytes(rng.getrandbits(8) | (0x80 if rng.random() < 0.7 else 0) for _ in range(n))
+
+    for n in range(0, 301):
+        for k, b in enumerate(kinds(n)):
+            for w in (32, 64):
+                lines.append("cfga%d %d %d %s" % (w, (n * 7 + k * 3 + w) % 64, rng.getrandbits(w), vlib.hexs(b)))
+    for n in range(8, 16):
+        for al in range(64):
+            for b in list(kinds(n))[1:]:
+                for w in (32, 64):
+                    lines.append("cfga%d %d %d %s" % (w, al, rng.getrandbits(w), vlib.hexs(b)))
+    return lines
+
+
+def cfga_oracle(t):
+    msg = hx(t[3])
+    v = (zlib.crc32(msg, int(t[2])) & 0xFFFFFFFF) if t[0].endswith("32") else crc64_py(msg, int(t[2]))
+    return "%d %d %d %d" % (v, v, v, v)
+
+
+# ---- unit row for tuklib_integer.h: the obvious definitions
+def tuk_cases(ctx):
+    rng = ctx.rng
+    bufs = [bytes([0xFF]) * 24, bytes([0x80]) * 24, bytes(0x80 | i for i in range(24)), bytes(range(1, 25)), bytes(24)]
+    for i in range(24):
+        for v in (0x80, 0xFF):
+            b = bytearray(24)
+            b[i] = v
+            bufs.append(bytes(b))
+    bufs += [rng.randbytes(24) for _ in range(60)]
+    return ["tuk " + b.hex() for b in bufs]
+
+
+def tuk_oracle(t):
+    b = bytes.fromhex(t[1])
+    I = int.from_bytes
+    out = []
+    for off in (0, 1):
+        for n in (2, 4, 8):
+            out += [I(b[off:off + n], "little"), I(b[off:off + n], "big")]
+    for n in (2, 4, 8):
+        out += [I(b[:n], "little"), I(b[:n], "big")]
+    out += [I(b[:2], "little"), I(b[:4], "little"), I(b[:8], "little")]     # native endian = little (x86)
+    o = bytearray([0xAA]) * 96
+    pos = {2: (1, 5, 40, 42, 72), 4: (9, 15, 44, 48, 76), 8: (21, 31, 56, 64, 80)}
+    for n in (2, 4, 8):
+        v = I(b[:n], "little")
+        le, be = v.to_bytes(n, "little"), v.to_bytes(n, "big")
+        p = pos[n]
+        o[p[0]:p[0] + n] = le
+        o[p[1]:p[1] + n] = be
+        o[p[2]:p[2] + n] = le
+        o[p[3]:p[3] + n] = be
+        o[p[4]:p[4] + n] = le
+    return " ".join(str(x) for x in out) + " " + bytes(o).hex()
+
+
+def tuklib_stage(ctx):
+    import sys as _sys
+    if _sys.byteorder != "little":
+        return
+    lines = tuk_cases(ctx)
+    table = {}
+    for name, extra in (("c14tuk", []), ("c14tukna", ["-UTUKLIB_FAST_UNALIGNED_ACCESS"])):
+        okh, log, texe = vlib.harness_build(name, ["c14_tuklib.c"], tu=HTU, link_lib=False, extra=extra)
+        if not okh:
+            ctx.obligation_broken("stage B: tuklib_integer.h unit harness %s does not compile against /repo" % name, log)
+            continue
+        rc, out, err = vlib.run_lines([texe], lines)
+        bad = 0
+        for i, ln in enumerate(lines):
+            got = out[i] if i < len(out) else "harness-abort"
+            ctx.case((name, ln), True)
+            ctx.count("tuklib_integer.h unit row (%s)" % name)
+            exp = tuk_oracle(ln.split())
+            if got != exp:
+                bad += 1
+                if bad <= 2:
+                    ctx.violation("tuklib-" + name, {"kind": "src/common/tuklib_integer.h (%s): read16/32/64 le/be at offsets 0 and 1, aligned_read*, then the buffer after write*/aligned_write*, differ from the obvious definition"
+                                                     % ("default variants" if not extra else "byte-by-byte variants, -UTUKLIB_FAST_UNALIGNED_ACCESS"),
+                                                     "tuklib": name, "op": ln, "impl": got, "python_reference": exp, "stderr": err[-1000:]}, True)
+        table[name] = {"ops": len(lines), "mismatches": bad}
+    ctx.cov["tuklib_integer_unit"] = table
+
+
 def cfg_oracle(t):
+    if t[0].startswith("cfga"):
+        return cfga_oracle(t)
     msg = b"".join(hx(x) for x in t[2:])
     v = (zlib.crc32(msg, int(t[1])) & 0xFFFFFFFF) if t[0].endswith("32") else crc64_py(msg, int(t[1]))
     return "%d %d %d" % (v, v, v)
@@ -359,7 +472,11 @@ def cfg_oracle(t):
 
 def data_tokens(t):
     """the hex tokens of an op line"""
+    if t[0].startswith("cfga"):
+        return t[3:]
     if t[0].startswith("cfg"):
+        return t[2:]
+    if t[0] in ("crc32g", "crc64g"):
         return t[2:]
     return {"crc32": t[3:], "crc64": t[3:], "crc32s": t[2:], "crc64s": t[2:], "small32": t[2:], "small64": t[2:],
             "sha256": t[1:], "sha256s": t[1:], "check": t[2:]}.get(t[0], [])
@@ -419,16 +536,21 @@ def build_config(name):
 def config_stage(ctx, model_ok):
     """Other build configurations of the check code, first call of a fresh process per line; rows of the correspondence."""
     clines = cfg_cases(ctx)
-    expect = None
+    alines = cfga_cases(ctx)
+    expect = aexpect = None
     if model_ok:
-        rc, mo, err = vlib.run_lines([vlib.model_exe("xzm_c14")], clines)
-        if rc == 0 and len(mo) == len(clines):
-            expect = mo
+        mexe = vlib.model_exe("xzm_c14")
+        rc, mo, err = vlib.run_lines([mexe], clines)
+        aparts = vlib.chunks(alines, vlib.NCPU)
+        ares = vlib.par_map(lambda ls: vlib.run_lines([mexe], ls), aparts)
+        amo = [o for (_, out, _) in ares for o in out]
+        if rc == 0 and len(mo) == len(clines) and len(amo) == len(alines):
+            expect, aexpect = mo, amo
         else:
             ctx.obligation_broken("model driver xzm_c14 failed on the configuration ops", err)
     table = {}
     for name, extra, what in CONFIGS:
-        if name == "c14clmul" and not cpu_has_clmul():
+        if "-mpclmul" in extra and not cpu_has_clmul():
             table[name] = {"what": what, "skipped": "CPU without PCLMULQDQ/SSSE3/SSE4.1"}
             continue
         okh, log, cexe = build_config(name)
@@ -455,7 +577,30 @@ def config_stage(ctx, model_ok):
                 else:
                     ctx.obligation_broken("correspondence C14 (config %s): model and implementation disagree but implementation matches the Python reference (model defect)" % name,
                                           json.dumps({"op": ln, "impl": got, "model": want}))
-        table[name] = {"what": what, "flags": extra, "ops": len(clines), "mismatches": bad}
+        # batch sweep: lengths x alignments x high-bit contents, pieces vs one piece (many ops per process)
+        aparts = vlib.chunks(alines, vlib.NCPU)
+        ares = vlib.par_map(lambda ls: vlib.run_lines([cexe], ls), aparts)
+        abad = 0
+        for (rc, out, err), ls, base in zip(ares, aparts, range(0, len(alines), max(1, len(aparts[0])))):
+            for j, ln in enumerate(ls):
+                got = out[j] if j < len(out) else "harness-abort"
+                want = aexpect[base + j] if aexpect is not None else cfga_oracle(ln.split())
+                ctx.case((name, ln), nontrivial=ln.split()[3] != "-")
+                if got != want:
+                    abad += 1
+                    exp = cfga_oracle(ln.split())
+                    if got != exp:
+                        if abad <= 3:
+                            ctx.violation("config-" + name + "-" + ln.split()[0],
+                                          {"kind": "build configuration '%s' (%s): columns = generic entry, arch entry, public, public over two pieces split at size/2; differs from the standard value" % (name, what),
+                                           "config": name, "op": ln, "impl": got, "model": want, "python_reference": exp, "stderr": err[-1500:],
+                                           "how_to_replay": "./check C14 --replay <this file>"}, True)
+                    else:
+                        ctx.obligation_broken("correspondence C14 (config %s): model and implementation disagree but implementation matches the Python reference (model defect)" % name,
+                                              json.dumps({"op": ln, "impl": got, "model": want}))
+        ctx.count("config %s: length x alignment x high-bit sweep" % name, len(alines))
+        table[name] = {"what": what, "flags": extra, "first_call_ops": len(clines), "first_call_mismatches": bad,
+                       "sweep_ops": len(alines), "sweep_mismatches": abad, "mismatches": bad + abad}
     ctx.cov["configurations"] = table
     ctx.log("build-configuration cases done: " + ", ".join("%s %s" % (k, v.get("mismatches", "skipped")) for k, v in table.items()))
 
@@ -471,7 +616,7 @@ def run(ctx):
         "the C compiler, and that harness/c14_*.c feed the same bytes at the stated alignment to the C code and to the model driver",
         "CLMUL path: the model of crc_x86_clmul.h is proved equal to the reference for all inputs; the C instruction sequence is tied to that model by correspondence (column 2 of every crc32/crc64 op), intrinsics are modelled by their documented meaning; CPUID gate is a run-time fact of this machine",
         "SHA-256 theorems assume messages shorter than 2^61 bytes (the C code's 64-bit bit counter, as in FIPS 180-4)",
-        "build configurations: the default build plus three re-compilations of the check sources inside the harness (no constructor attribute = first-call dispatch; table-driven only; CLMUL only) and the HAVE_SMALL files; other configurations (big endian, ARM64/LoongArch CRC32 instructions, 32-bit x86 assembler, external SHA-256 libraries) are not compiled here",
+        "build configurations: the default build plus six re-compilations of the check sources inside the harness (no constructor attribute = first-call dispatch; table-driven only; CLMUL only; each of default/table-only/CLMUL-only again without TUKLIB_FAST_UNALIGNED_ACCESS = byte-by-byte integer readers), a unit row for tuklib_integer.h in both variants, and the HAVE_SMALL files; other configurations (big endian, ARM64/LoongArch CRC32 instructions, 32-bit x86 assembler, external SHA-256 libraries) are not compiled here",
         "the members of the lzma_check_state union are modelled side by side (one check type per init/update/finish sequence)",
         "byte strings are Lean Lists (unbounded length, no size_t): the theorems hold for every length, but C-level width effects on counts >= 2^32 (a mask or cast truncating size_t to 32 bits) are outside the model; they are exercised only by the 'huge single call' run (one call over 4 GiB - 1 / + 64 / + 12345 bytes vs the same buffer in ~1 GiB pieces vs independent GF(2) arithmetic / hashlib)",
     ]
@@ -560,6 +705,7 @@ def run(ctx):
                 break
     ctx.cov["correspondence"] = {"ops": len(lines), "mismatches": mism, "model_ran": m_out is not None}
     config_stage(ctx, m_out is not None)
+    tuklib_stage(ctx)
     # judge the huge single-call cases
     hres, hexps = huge_future.result()
     huge_pool.shutdown()
@@ -610,6 +756,12 @@ def replay(ctx, path):
     if exe is None:
         print("build failed")
         return 2
+    if r.get("tuklib"):
+        okh, log, exe = vlib.harness_build(r["tuklib"], ["c14_tuklib.c"], tu=HTU, link_lib=False,
+                                           extra=["-UTUKLIB_FAST_UNALIGNED_ACCESS"] if r["tuklib"].endswith("na") else [])
+        if not okh:
+            print("tuklib harness does not build:", log[-1000:])
+            return 2
     if r.get("config"):
         okh, log, exe = build_config(r["config"])
         if not okh:
